@@ -24,7 +24,6 @@ CONSTANTS
   NParts = 1
   Part = 0
   MaxSteps = 400
-  KnownRepeatOverMapping = TRUE
   KnownRawTextEscaped = TRUE
 INVARIANT WellFormed
 INVARIANT Terminates
